@@ -43,6 +43,9 @@ structure St where
   errPending : List String := []    -- containers whose pending change stems from an error reply
   reported : List String := []
   restarts : Nat := 0
+  prevCacheView : List (String × String × Res × Bool) := []
+  cfgChanged : Bool := false        -- an accepted configuration change happened earlier in this history
+  expectUnchanged : Bool := false   -- the last request was a rejected configuration update: nothing may have changed
   unsat : List String := []         -- live containers the policy cannot satisfy at all after the restart (harness probe)
   tainted : Bool := false           -- an unchanged configuration was rejected earlier in this history (known finding); later issues are its consequences
   -- statistics
@@ -281,7 +284,7 @@ def step (st : St) (toks : List String) : St × List Issue :=
   match toks with
   | "H" :: h :: _ :: cfg =>
     ({ st with hist := h.toNat?.getD 0, cfg := " ".intercalate cfg, ctrs := [], snap := ⟨[], [], [], true, true, [], []⟩, initPools := [], haveInit := false,
-               cacheView := [], drained := false, errPending := [], model := none, modelDesync := false, reported := [], tainted := false, hists := st.hists + 1, lastEv := [] }, [])
+               cacheView := [], drained := false, errPending := [], model := none, modelDesync := false, reported := [], tainted := false, cfgChanged := false, expectUnchanged := false, hists := st.hists + 1, lastEv := [] }, [])
   | "M" :: _ => (st, [])
   | "HERR" :: _ => (st, [])
   | ["Q", "drain"] => (st, [])
@@ -291,6 +294,7 @@ def step (st : St) (toks : List String) : St × List Issue :=
     ({ st with drained := false }, is)
   | "E" :: ev => ({ st with lastEv := ev, events := st.events + 1, unsat := [] }, [])
   | ["X", "unsat", id] => ({ st with unsat := id :: st.unsat }, [])
+  | "CFG" :: cfg => ({ st with cfg := " ".intercalate cfg, cfgChanged := true }, [])
   | "X" :: _ => (st, [])
   | "R" :: "panic" :: rest => report { st with lastOk := false } [s!"C14:handler-panicked {" ".intercalate st.lastEv} {" ".intercalate rest}"]
   | "R" :: "err" :: _ =>
@@ -304,7 +308,24 @@ def step (st : St) (toks : List String) : St × List Issue :=
         | none => st
       | _ => st
     let st := { st with lastOk := false }
-    if st.lastEv == ["reconfig", "same"] then
+    if st.lastEv.head? == some "reconfig" && st.lastEv != ["reconfig", "same"] then
+      -- a rejected configuration update must leave no trace: checked when the snapshot arrives
+      -- (the revert re-applies the old configuration and may push updates; they must not change anything at the runtime)
+      let pushed := toks.getLast?.getD "-"
+      let ups : List (String × Res) := if pushed == "-" then [] else
+        ((pushed.replace "#" ",").replace ";" ",").splitOn "," |>.filterMap fun u => match u.splitOn "=" with
+          | [id, r] => some (id, parseRes r)
+          | _ => none
+      let (st, errs) := ups.foldl (fun (acc : St × List String) (id, r) =>
+        match getCtr acc.1 id with
+        | some c =>
+          let rt' := overlay c.rt r
+          let errs := if rt' != c.rt && !acc.1.errPending.contains id then acc.2 ++ [s!"C13:rejected-config-changed-resources {id} {st.lastEv.getD 1 "?"}"] else acc.2
+          (setCtr acc.1 { c with rt := rt', told := overlay c.told r }, errs)
+        | none => acc) (st, [])
+      let (st, is) := report st errs
+      ({ st with expectUnchanged := true }, is)
+    else if st.lastEv == ["reconfig", "same"] then
       -- re-applying the unchanged configuration was refused: verbatim re-instatement of the grants fails only
       -- when some pool's promised capacity already exceeds its shared CPUs (known finding C03:descendant-starved…)
       let starved := starvedBefore st
@@ -318,6 +339,7 @@ def step (st : St) (toks : List String) : St × List Issue :=
         | [id, r] => some (id, parseRes r)
         | _ => none
     let errs : List String := []
+    let errs := if st.lastEv.head? == some "reconfig" && ((st.lastEv.getD 1 "").startsWith "bad:") then errs ++ [s!"C13:invalid-config-accepted {st.lastEv.getD 1 "?"}"] else errs
     -- C05: at most one update per container in a reply; none to stopped/removed/unknown containers; not to the created one
     let ids := ups.map (·.1)
     let errs := if st.lastEv.head? != some "reconfig" && ids.eraseDups.length != ids.length then errs ++ ["C05:several-updates-for-one-container"] else errs
@@ -367,11 +389,16 @@ def step (st : St) (toks : List String) : St × List Issue :=
         let errs := acc.2
         let errs := if flag c.flags "pc" == "T" && r.getD 0 "-" != "-" then errs ++ [s!"C12:cpu-preserve-container-told-cpus {id}"] else errs
         let errs := if flag c.flags "pm" == "T" && r.getD 1 "-" != "-" && r.getD 1 "-" != c.rt.getD 1 "-" then errs ++ [s!"C12:memory-preserve-container-told-mems {id}"] else errs
-        let errs := if !acc.1.snap.pinCPU && r.getD 0 "-" != "-" then errs ++ [s!"C12:cpus-told-with-pinning-disabled {id}"] else errs
-        let errs := if !acc.1.snap.pinMem && r.getD 1 "-" != "-" then errs ++ [s!"C12:mems-told-with-pinning-disabled {id}"] else errs
+        -- (after a changed configuration the options of the previous snapshot no longer apply)
+        let cfgChanged := isReconfig && acc.1.lastEv != ["reconfig", "same"]
+        let errs := if !cfgChanged && !acc.1.snap.pinCPU && r.getD 0 "-" != "-" then
+            -- pinning was switched off by a configuration change: UpdateContainer echoes the cpuset cached from before (the value the runtime already has)
+            (if acc.1.cfgChanged && r.getD 0 "-" == c.rt.getD 0 "-" then errs ++ [s!"C12:cached-cpuset-echoed-after-pinning-disabled {id}"]
+             else errs ++ [s!"C12:cpus-told-with-pinning-disabled {id}"]) else errs
+        let errs := if !cfgChanged && !acc.1.snap.pinMem && r.getD 1 "-" != "-" then errs ++ [s!"C12:mems-told-with-pinning-disabled {id}"] else errs
         let rt' := overlay c.rt r
         -- (changes left pending by an earlier error reply and merely delivered now are not caused by the re-application)
-        let errs := if isReconfig && rt' != c.rt && !acc.1.errPending.contains id then
+        let errs := if isReconfig && acc.1.lastEv == ["reconfig", "same"] && rt' != c.rt && !acc.1.errPending.contains id then
             errs ++ [if starvedBefore acc.1 then s!"C13:unchanged-config-replaced-in-starved-state {id}" else s!"C13:unchanged-config-changed-resources {id}"] else errs
         (setCtr acc.1 { c with rt := rt', told := overlay c.told r }, errs)
       | none => acc) (st, errs)
@@ -384,7 +411,7 @@ def step (st : St) (toks : List String) : St × List Issue :=
     let pend := (cv.filter (·.2.2.2)).map (·.1)
     let ep := st.errPending.filter (pend.contains ·)
     let ep := if !st.lastOk then (ep ++ pend).eraseDups else ep
-    ({ st with cacheView := cv, errPending := ep }, [])
+    ({ st with prevCacheView := st.cacheView, cacheView := cv, errPending := ep }, [])
   | ["PS", a, r, i, pc, pm] =>
     match (kv a "allowed").bind pset, (kv r "reserved").bind pset, (kv i "isolated").bind pset with
     | some a, some r, some i => ({ st with prevSnap := st.snap, snap := ⟨a, r, i, pc == "pincpu=true", pm == "pinmem=true", [], []⟩ }, [])
@@ -408,6 +435,14 @@ def step (st : St) (toks : List String) : St × List Issue :=
     -- (while the plugin is down its state is not expected to follow the runtime's world)
     let down := (st.lastEv.headD "").startsWith "down-"
     let (st, is) := if down then (st, []) else report st (checkState st)
+    -- C13: after an accepted configuration change every created or running container still holds an allocation
+    let (st, is) := if st.lastEv.head? == some "reconfig" && ((st.lastEv.getD 1 "").startsWith "change:") && st.lastOk then
+        let live := st.ctrs.filter (fun c => c.state == "created" || c.state == "running")
+        let errs := live.foldl (fun errs c =>
+          if !(st.snap.grants.any (·.ctr == c.id)) && !st.unsat.contains c.id && c.milliTried.isEmpty then errs ++ [s!"C13:live-container-without-allocation-after-change {c.id} ({c.state}) {st.lastEv.getD 1 "?"}"] else errs) []
+        let (st, is2) := report st errs
+        (st, is ++ is2)
+      else (st, is)
     -- C11: after restart + Synchronize exactly the containers the runtime reports created/running hold allocations,
     -- nothing the runtime no longer knows is left in the cache
     let (st, is) := if st.lastEv.head? == some "restart" then
@@ -423,6 +458,16 @@ def step (st : St) (toks : List String) : St × List Issue :=
           | some c => if c.state == "removed" || c.state == "removed-unstopped" || c.state == "refused" then errs ++ [s!"C11:stale-container-in-cache-after-restart {id} ({c.state})"] else errs
           | none => errs ++ [s!"C11:unknown-container-in-cache-after-restart {id}"]) errs
         let (st, is2) := report st errs
+        (st, is ++ is2)
+      else (st, is)
+    -- C13: a rejected configuration update leaves policy state and cache as they were
+    let (st, is) := if st.expectUnchanged then
+        let errs := (unchangedInv st.prevSnap st.snap).map (fun e => e.replace "C13:unchanged-config-changed-policy-state" "C13:rejected-config-changed-policy-state" |>.replace "C13:unchanged-config-changed-memory-zone" "C13:rejected-config-changed-memory-zone")
+        let norm := fun (v : List (String × String × Res × Bool)) => (v.map fun e => (e.1, e.2.1, e.2.2.1)).toArray.qsort (fun a b => a.1 < b.1) |>.toList
+        let errs := if norm st.prevCacheView != norm st.cacheView then errs ++ [s!"C13:rejected-config-changed-cache {st.lastEv.getD 1 "?"}"] else errs
+        let errs := if st.snap.pinCPU != st.prevSnap.pinCPU || st.snap.pinMem != st.prevSnap.pinMem || !sameSet st.snap.reserved st.prevSnap.reserved || !sameSet st.snap.allowed st.prevSnap.allowed then
+          errs ++ [s!"C13:rejected-config-changed-options {st.lastEv.getD 1 "?"}"] else errs
+        let (st, is2) := report { st with expectUnchanged := false } errs
         (st, is ++ is2)
       else (st, is)
     -- C13: a successfully re-applied unchanged configuration leaves the policy state as it was
